@@ -92,10 +92,11 @@ def files_for(seed, tier):
     return "generated", raw, {"kind": "gen", "model": model}
 
 
-def check_one(buf):
-    """-> (verdict, detail): 'rejected' | 'accepted' | 'late-reject'"""
+def check_one(buf, entry="dex"):
+    """-> (verdict, detail): 'rejected' | 'accepted' | 'late-reject'.  entry: 'dex' = DEX(buf), 'odex' = ODEX(buf) (the
+    subclass shares DEX.__init__ and parses a plain DEX buffer through the same header checks)"""
     _CALLS[0] = 0
-    res = iosim.parse("dex", buf, keep_log=True, clock=True, budget=STEP_BUDGET)
+    res = iosim.parse(entry, buf, keep_log=True, clock=True, budget=STEP_BUDGET)
     oc = res["outcome"]
     if oc in ("loop", "inconclusive"):
         return "hang", "%s in %s after %d steps" % (oc, res["where"] or res["owner"], res["steps"])
@@ -140,6 +141,29 @@ def header_faults(r, raw):
             m = bytes(b[:8])
             valid = m[:2] == b"de" and m[2] in (0x78, 0x79) and m[3] == 0x0A and m[7] == 0
             out.append((["magic", i, v], bytes(b), not valid))
+    # rotated / shifted magics and windows of the two valid prefixes glued together (sloppy membership tests)
+    glued = b"dex\ndey\ndex\n"
+    for k in range(1, 8):
+        for pre in (glued[k:k + 4],):
+            if pre in (b"dex\n", b"dey\n"):
+                continue
+            b = bytearray(raw)
+            b[0:4] = pre
+            out.append((["magic4", pre.hex()], bytes(b), True))
+    for rot in range(1, 8):
+        b = bytearray(raw)
+        b[0:8] = raw[rot:8] + raw[0:rot]
+        out.append((["magic8", bytes(b[0:8]).hex()], bytes(b), True))
+    # blank integrity fields, as a memory dump or a not yet fixed-up file would have them
+    for zero_sig in (False, True):
+        for cs in (0, 1, 0xFFFFFFFF):
+            b = bytearray(raw)
+            struct.pack_into("<I", b, 8, cs)
+            if zero_sig:
+                b[12:32] = bytes(20)
+            import zlib
+            if (zlib.adler32(bytes(b[12:])) & 0xFFFFFFFF) != cs:
+                out.append((["blank", cs, int(zero_sig)], bytes(b), True))
     # endian tag (offset 40), checksum recomputed
     for v in [0x78563412, 0, 0xFFFFFFFF, 0x12345679, 0x12345600, 0x02345678] + [r.getrandbits(32) for _ in range(6)]:
         if v == 0x12345678:
@@ -196,6 +220,9 @@ def worker(seed):
     v, d = check_one(raw)
     if v != "accepted":
         raise HarnessError(f"pristine file {name} is not accepted by DEX(): {v} {d} (generator or corpus problem)")
+    v, d = check_one(raw, "odex")
+    if v != "accepted":
+        raise HarnessError(f"pristine file {name} is not accepted by ODEX(): {v} {d}")
     pr = iosim.parse("dex", raw, keep_log=True, clock=False)
     structural = bytearray(len(raw))
     for sid, pos, asked, got in pr["log"]:
@@ -218,7 +245,10 @@ def worker(seed):
         b = bytearray(raw)
         for val in vals:
             b[off] = val
-            verdict, detail = check_one(bytes(b))
+            entry = "odex" if (off + val) % 5 == 0 else "dex"
+            verdict, detail = check_one(bytes(b), entry)
+            if entry == "odex":
+                fired["entry:ODEX(buf)"] = fired.get("entry:ODEX(buf)", 0) + 1
             n += 1
             fired["stored-byte"] += 1
             if structural[off]:
@@ -226,24 +256,27 @@ def worker(seed):
             if verdict == "rejected":
                 exc_kinds[detail] = exc_kinds.get(detail, 0) + 1
                 continue
-            sig = f"C09:{verdict}:{region_of(raw, off)}"
+            sig = f"C09:{verdict}:{region_of(raw, off)}" + (":via-ODEX" if entry == "odex" else "")
             if sig not in problems:
-                problems[sig] = {"msg": f"{name}: byte at offset {off} changed {orig:#04x} -> {val:#04x}: {verdict} ({detail})",
-                                 "fault": ["byte", off, val]}
+                problems[sig] = {"msg": f"{name}: byte at offset {off} changed {orig:#04x} -> {val:#04x}: {verdict} ({detail})"
+                                        + (" through ODEX(buf)" if entry == "odex" else ""),
+                                 "fault": ["byte", off, val, entry]}
     for desc, buf, wrong in header_faults(r, raw):
         if not wrong:
             skipped["valid-header-value-not-expected-to-be-rejected"] = skipped.get("valid-header-value-not-expected-to-be-rejected", 0) + 1
             continue
-        verdict, detail = check_one(buf)
+        entry = "odex" if (n % 4 == 3 and desc[0] not in ("magic", "magic4", "magic8")) else "dex"
+        verdict, detail = check_one(buf, entry)
         n += 1
         nontriv += 1
         fired["header-field"] += 1
         if verdict == "rejected":
             exc_kinds[detail] = exc_kinds.get(detail, 0) + 1
             continue
-        sig = f"C09:{verdict}:header-field:{desc[3] if desc[0] == 'combo' else desc[0]}"
+        sig = f"C09:{verdict}:header-field:{desc[3] if desc[0] == 'combo' else desc[0]}" + (":via-ODEX" if entry == "odex" else "")
         if sig not in problems:
-            problems[sig] = {"msg": f"{name}: header fault {desc}: {verdict} ({detail})", "fault": ["header"] + desc}
+            problems[sig] = {"msg": f"{name}: header fault {desc}: {verdict} ({detail})" + (" through ODEX(buf)" if entry == "odex" else ""),
+                             "fault": ["header"] + desc + ([{"entry": "odex"}] if entry == "odex" else [])}
     case = {"seed": seed, "src": src, "by_sig": {s: p["fault"] for s, p in problems.items()}} if problems else None
     sample = {"seed": seed, "file": name, "bytes": len(raw), "offsets": len(raw) - 12, "values_per_offset": 255 if all_values else 4,
               "example_fault": ["byte", 12 + (seed % max(1, len(raw) - 12)), "xor 0x01"], "rejections": exc_kinds} if seed % 3 == 0 else None
@@ -280,6 +313,17 @@ def _apply(raw, fault):
         b = bytearray(fix_adler(b))
         b[fault[5]] = fault[6]
         return bytes(b)
+    if kind == "magic4":
+        b[0:4] = bytes.fromhex(fault[2])
+        return bytes(b)
+    if kind == "magic8":
+        b[0:8] = bytes.fromhex(fault[2])
+        return bytes(b)
+    if kind == "blank":
+        struct.pack_into("<I", b, 8, fault[2])
+        if fault[3]:
+            b[12:32] = bytes(20)
+        return bytes(b)
     if kind in ("magic", "checksum"):
         b[fault[2]] = fault[3]
         return bytes(b)
@@ -292,15 +336,22 @@ def _apply(raw, fault):
 
 def _sig(raw, fault):
     # the same history as in the worker: the pristine file is parsed first (and must be accepted), then the faulted copy
-    v0, d0 = check_one(raw)
+    entry = "dex"
+    if fault[0] == "byte" and len(fault) > 3:
+        entry = fault[3]
+    if fault[0] == "header" and isinstance(fault[-1], dict):
+        entry = fault[-1].get("entry", "dex")
+        fault = fault[:-1]
+    v0, d0 = check_one(raw, entry)
     if v0 != "accepted":
-        raise HarnessError(f"pristine file is not accepted by DEX(): {v0} {d0}")
-    verdict, detail = check_one(_apply(raw, fault))
+        raise HarnessError(f"pristine file is not accepted by {entry}: {v0} {d0}")
+    verdict, detail = check_one(_apply(raw, fault), entry)
     if verdict == "rejected":
         return None, detail
+    tail = ":via-ODEX" if entry == "odex" else ""
     if fault[0] == "byte":
-        return f"C09:{verdict}:{region_of(raw, fault[1])}", detail
-    return f"C09:{verdict}:header-field:{fault[5 - 1] if fault[1] == 'combo' else fault[1]}", detail
+        return f"C09:{verdict}:{region_of(raw, fault[1])}" + tail, detail
+    return f"C09:{verdict}:header-field:{fault[5 - 1] if fault[1] == 'combo' else fault[1]}" + tail, detail
 
 
 def minimise(case, sig):
